@@ -15,10 +15,10 @@ CONSTANTS
   MaxRetries = 1
   Alpha <- AlphaAll
   RefreshAlpha <- RBoth
-  MaxRecs = 3
+  MaxRecs = 4
   MaxClock = 0
   MaxMeta = 0
-  MaxCalls = 3
+  MaxCalls = 4
   MaxOpens = 2
   ExplicitRel = 5
   ExplicitAbs = 7
